@@ -90,16 +90,26 @@ fn exp_kind(sp: Span) -> String {
     out.join("<")
 }
 
-fn collect_fnrefs<'tcx>(tcx: TyCtxt<'tcx>, t: Ty<'tcx>, out: &mut Vec<String>, depth: usize) {
+fn resolve_fn<'tcx>(tcx: TyCtxt<'tcx>, tenv: TypingEnv<'tcx>, d: DefId, a: ty::GenericArgsRef<'tcx>) -> Option<String> {
+    match Instance::try_resolve(tcx, tenv, d, a) {
+        Ok(Some(inst)) => Some(path(tcx, inst.def_id())),
+        _ => None,
+    }
+}
+
+fn collect_fnrefs<'tcx>(tcx: TyCtxt<'tcx>, tenv: TypingEnv<'tcx>, t: Ty<'tcx>, out: &mut Vec<String>, depth: usize) {
     if depth > 6 {
         return;
     }
     match t.kind() {
         ty::FnDef(d, a) => {
             out.push(path(tcx, *d));
+            if let Some(r) = resolve_fn(tcx, tenv, *d, a) {
+                out.push(r);
+            }
             for g in a.iter() {
                 if let Some(t2) = g.as_type() {
-                    collect_fnrefs(tcx, t2, out, depth + 1);
+                    collect_fnrefs(tcx, tenv, t2, out, depth + 1);
                 }
             }
         }
@@ -109,16 +119,16 @@ fn collect_fnrefs<'tcx>(tcx: TyCtxt<'tcx>, t: Ty<'tcx>, out: &mut Vec<String>, d
         ty::Adt(_, a) => {
             for g in a.iter() {
                 if let Some(t2) = g.as_type() {
-                    collect_fnrefs(tcx, t2, out, depth + 1);
+                    collect_fnrefs(tcx, tenv, t2, out, depth + 1);
                 }
             }
         }
         ty::Ref(_, t2, _) | ty::RawPtr(t2, _) | ty::Slice(t2) | ty::Array(t2, _) => {
-            collect_fnrefs(tcx, *t2, out, depth + 1)
+            collect_fnrefs(tcx, tenv, *t2, out, depth + 1)
         }
         ty::Tuple(ts) => {
             for t2 in ts.iter() {
-                collect_fnrefs(tcx, t2, out, depth + 1);
+                collect_fnrefs(tcx, tenv, t2, out, depth + 1);
             }
         }
         _ => {}
@@ -204,9 +214,12 @@ impl<'a, 'tcx> Fx<'a, 'tcx> {
         match t.kind() {
             ty::FnDef(d, a) => {
                 fields.push(("fn", J::S(path(tcx, *d))));
+                if let Some(r) = resolve_fn(tcx, self.tenv, *d, a) {
+                    fields.push(("fn_resolved", J::S(r)));
+                }
                 fields.push(("fnargs", J::S(path_args(tcx, *d, a))));
                 let mut refs = Vec::new();
-                collect_fnrefs(tcx, t, &mut refs, 0);
+                collect_fnrefs(tcx, self.tenv, t, &mut refs, 0);
                 fields.push(("fnrefs", J::A(refs.into_iter().map(J::S).collect())));
             }
             _ => {
@@ -247,6 +260,9 @@ impl<'a, 'tcx> Fx<'a, 'tcx> {
                     match c.const_ {
                         Const::Unevaluated(u, _) => {
                             fields.push(("uneval", J::S(path(tcx, u.def))));
+                            if let Some(pr) = u.promoted {
+                                fields.push(("promoted", J::I(pr.as_usize() as i128)));
+                            }
                         }
                         _ => {}
                     }
@@ -435,7 +451,7 @@ impl<'a, 'tcx> Fx<'a, 'tcx> {
                                 let mut refs = Vec::new();
                                 for g in a.iter() {
                                     if let Some(t2) = g.as_type() {
-                                        collect_fnrefs(tcx, t2, &mut refs, 0);
+                                        collect_fnrefs(tcx, self.tenv, t2, &mut refs, 0);
                                     }
                                 }
                                 f.push(("fnrefs", J::A(refs.into_iter().map(J::S).collect())));
@@ -739,6 +755,12 @@ impl rustc_driver::Callbacks for Cb {
                 DefKind::Fn | DefKind::AssocFn | DefKind::Closure => {
                     let body = tcx.optimized_mir(did);
                     lines.push(dump_body(tcx, did, body, "opt", &krate));
+                    for (pi, pb) in tcx.promoted_mir(did).iter_enumerated() {
+                        let mut l = dump_body(tcx, did, pb, "promoted", &krate);
+                        // tag with the promoted index (prefix of the JSON object)
+                        l.insert_str(1, &format!("\"promoted_index\":{},", pi.as_usize()));
+                        lines.push(l);
+                    }
                 }
                 _ => {
                     let body = tcx.mir_for_ctfe(did);
